@@ -48,7 +48,7 @@ impl ConnectionProvider for UpProvider {
 }
 
 #[derive(Clone, Default)]
-struct Recorder(Arc<Mutex<Vec<Vec<u8>>>>);
+pub struct Recorder(pub Arc<Mutex<Vec<Vec<u8>>>>);
 
 #[async_trait::async_trait]
 impl ResponseHandler for Recorder {
